@@ -1071,6 +1071,68 @@ fn malformed_sweep(ctx: &Ctx, c: &Counters, agg: &Agg, max_len: u32) {
 const SYMS: [&str; 5] = ["a:o+w", "f:ug-r", "d:g=w", "f:a+x,d:o-x", "d:u-w,f:g+w"];
 const OCT: [u32; 2] = [0o750, 0o604];
 
+// ---------------------------------------------------------------------------------------------
+// Deep chain: recursion must reach every level, not only the few the enumerated trees have. One
+// chain of DEEP nested directories with a file at the bottom (deeper than any constant in rivia: the
+// descriptor cap is 50), recursive chmod (octal, symbolic) and chown on its top; every level is read back.
+// ---------------------------------------------------------------------------------------------
+const DEEP: usize = 300;
+
+fn deep_chain<V: VirtualFileSystem>(backend: &str, fs: &V, top: &str, with_chown: bool) -> Vec<(Verdict, J)> {
+    let mut out = vec![];
+    let mut dirs: Vec<String> = vec![top.to_string()];
+    for _ in 0..DEEP {
+        dirs.push(format!("{}/a", dirs.last().unwrap()));
+    }
+    let file = format!("{}/f", dirs.last().unwrap());
+    let setup = catch_unwind(AssertUnwindSafe(|| -> RvResult<()> {
+        fs.mkdir_m(dirs.last().unwrap(), 0o755)?;
+        fs.mkfile_m(&file, 0o644)?;
+        Ok(())
+    }));
+    if !matches!(setup, Ok(Ok(()))) {
+        out.push((Verdict { sig: format!("{} deep chain · cannot be built", backend), detail: format!("mkdir_m/mkfile_m of a chain of {} directories failed: {:?}", DEEP, setup.map(|r| r.map_err(|e| e.to_string()))) }, J::obj([("part", J::s("deep-chain"))])));
+        return out;
+    }
+    let mut ops: Vec<(Op, Box<dyn Fn(bool, u32) -> u32>)> = vec![
+        (Op::Chmod(0o750), Box::new(|_d, _old| 0o750)),
+        (Op::ChmodB { recurse: true, follow: false, act: Act::Dirs(0o711) }, Box::new(|d, old| if d { 0o711 } else { old })),
+        (Op::ChmodB { recurse: true, follow: false, act: Act::Sym("a:o-rx,f:u+x".into()) }, Box::new(|d, old| if d { old & !0o005 } else { (old & !0o005) | 0o100 })),
+    ];
+    if with_chown {
+        ops.push((Op::Chown(5, 7), Box::new(|_d, old| old)));
+    }
+    let mut cur_mode_dir = 0o755u32;
+    let mut cur_mode_file = 0o644u32;
+    for (op, want) in ops {
+        let res = exec_op(fs, top, &op);
+        let case = J::obj([("part", J::s("deep-chain")), ("depth", J::i(DEEP as i64)), ("call", op.to_json())]);
+        if !matches!(res, Ok(Ok(()))) {
+            out.push((Verdict { sig: format!("{} {} · deep chain · call failed", backend, op.family()), detail: format!("{} on a chain of {} directories: {}", op.render(top), DEEP, render_result(&res)) }, case));
+            continue;
+        }
+        let (wd, wf) = (want(true, cur_mode_dir), want(false, cur_mode_file));
+        let mut first_bad: Option<String> = None;
+        for (level, p) in dirs.iter().enumerate().chain(std::iter::once((DEEP + 1, &file))) {
+            let is_dir = p != &file;
+            let m = fs.mode(p).map(|x| x & 0o7777).unwrap_or(u32::MAX);
+            let o = fs.owner(p).unwrap_or((u32::MAX, u32::MAX));
+            let mode_ok = m == if is_dir { wd } else { wf };
+            let own_ok = !matches!(op, Op::Chown(..)) || o == (5, 7);
+            if !mode_ok || !own_ok {
+                first_bad = Some(format!("level {} ({}): mode {:o} owner {}:{}, expected mode {:o}{}", level, if is_dir { "dir" } else { "file" }, m, o.0, o.1, if is_dir { wd } else { wf }, if matches!(op, Op::Chown(..)) { " owner 5:7" } else { "" }));
+                break;
+            }
+        }
+        if let Some(b) = first_bad {
+            out.push((Verdict { sig: format!("{} {} · deep chain · a level below the top was not reached", backend, op.family()), detail: format!("{} on a chain of {} directories with a file at the bottom: {}", op.render(top), DEEP, b) }, case));
+        }
+        cur_mode_dir = wd;
+        cur_mode_file = wf;
+    }
+    out
+}
+
 fn chmod_ops() -> Vec<Op> {
     let mut v = vec![Op::Chmod(0o750), Op::Chmod(0o604), Op::Chmod(0o444)];
     for recurse in [true, false] {
@@ -1436,6 +1498,15 @@ pub fn stdfs_worker(w: &mut WorkerCtx) {
     });
     let sb = Sandbox::new(&format!("c11.{}", w.shard));
     let trees = enum_trees(&tree_space(w.tier.pick(3, 4)));
+    if w.shard == 0 {
+        sb.reset();
+        let top = format!("{}/e", sb.root);
+        for (v, case) in deep_chain("stdfs", &Stdfs::new(), &top, true) {
+            w.vio(&v.sig, || v.detail, move || case);
+        }
+        w.count("transitions", 4);
+        sb.reset();
+    }
     let mut chm = chmod_ops();
     chm.push(Op::ChmodB { recurse: false, follow: false, act: Act::All(0) });
     let mut all = chm.clone();
@@ -1556,6 +1627,10 @@ pub fn run(ctx: &Ctx) -> i32 {
     let agg = Agg::new();
     let (n_trees, n_init, n_closure) = memfs_trees(ctx, &c, &agg, &states);
     octal_and_presets(ctx, &c, &agg, &states);
+    for (v, case) in deep_chain("memfs", &Memfs::new(), "/e", true) {
+        agg.add(0, v, || case);
+    }
+    c.transitions.fetch_add(4, Ordering::Relaxed);
     agg.flush();
     let t_trees = t0.elapsed().as_secs_f64();
     let memfs_transitions = c.transitions.load(Ordering::Relaxed);
@@ -1689,6 +1764,22 @@ fn replay(ctx: &Ctx, p: &std::path::Path) -> i32 {
     let j = json::parse(&std::fs::read_to_string(p).expect("read replay")).expect("parse replay");
     let case = j.get("case").expect("case");
     let part = case.get("part").and_then(|x| x.as_str()).unwrap_or("");
+    if part == "deep-chain" {
+        let mut found = deep_chain("memfs", &Memfs::new(), "/e", true);
+        if unsafe { libc::geteuid() } == 0 {
+            let sb = Sandbox::new("c11.replay.deep");
+            found.extend(deep_chain("stdfs", &Stdfs::new(), &format!("{}/e", sb.root), true));
+        }
+        for (v, _) in &found {
+            println!("  {}: {}", v.sig, v.detail);
+        }
+        if found.is_empty() {
+            println!("holds on this case");
+            return 0;
+        }
+        println!("VIOLATION property={} replay={}", ctx.prop, p.display());
+        return 1;
+    }
     if part == "hang" {
         println!("replay C11: the recorded call {} did not return; a hang is re-observed by re-running ./check C11 (the watchdog reports the first call that does not return)", case.get("call").and_then(|x| x.as_str()).unwrap_or("?"));
         println!("VIOLATION property={} replay={}", ctx.prop, p.display());
